@@ -240,7 +240,7 @@ WORK_A, WORK_B = 48, 400       # trait-call bound  A·n + B  (n = number of char
 def c01(tier, rng):
     res = Result()
     res.rule = ("C01 input space x {StrInput, BufferedInput, RingInput 8/16/64/128} x {iterator, push, peek/next history, 4 loaders}; "
-                "non-trivial = token stream beyond StreamStart/StreamEnd or an error; distinct by text")
+                "plus every string of length <= 3 over 12 type-steering characters as a plain scalar in 4 positions x 4 loaders; non-trivial = token stream beyond StreamStart/StreamEnd or an error; distinct by text")
     res.corr_ops = ['tok (str, buf, ring8)', 'evt', 'psh', 'lod']
     texts = c01_space(tier, rng) + long_inputs() + [bomb(3), bomb(5)]
     hr = rng.fork('hist')
@@ -300,6 +300,29 @@ def c01(tier, rng):
         if n % 4001 == 0:
             res.samples.append({'text': t[:80], 'tok': impl[o][:160]})
     res.extra['work_bound'] = {'A': WORK_A, 'B': WORK_B, 'worst_observed_slope': round(worst, 2)}
+    # the scalar resolver runs inside every loader: every string of length <= 3 over the characters that steer type
+    # resolution (radix prefixes, signs, dot, exponent, digit, underscore, null/bool letters), in four positions, four loaders
+    import itertools as _it
+    alpha = '0xo+-.e1_~nN'
+    edge = [''.join(c) for k in (1, 2, 3) for c in _it.product(alpha, repeat=k)] + ['0x', '0o', '0X', '0O', '0b', '+0x', '-0o', '0x_', '0o_', '.e', '+.', '-.', '0x+1', '0o-1', '.inf.', '.nan1', '1e', '1e+', '-', '+', '.', '~', 'e', '_']
+    ereqs, emeta = [], []
+    for w in edge:
+        for shape in ('{0}\n', 'k: {0}\n', '- {0}\n- z\n', '[{0}, {{{0}: {0}}}]\n'):
+            t = shape.format(w)
+            for nk in ('y', 'yo', 'm', 'mo'):
+                ereqs.append(f'lod {nk} e {hx(t)}')
+                emeta.append(t)
+    eimpl = run_impl(ereqs)
+    esel = [i for i in range(0, len(ereqs), 4)]
+    emodel = dict(zip(esel, run_model([ereqs[i] for i in esel])))
+    for i, (r, a, t) in enumerate(zip(ereqs, eimpl, emeta)):
+        res.evaluations += 1
+        if i % 4 == 0:
+            res.nt(t)
+        if a.startswith('PANIC') or 'CRASH' in a or 'RUNAWAY' in a or a == 'UNANSWERED' or ' PANIC' in a:
+            res.oracle_failures.append({'sig': usig(t), 'what': f'lod: a loader panicked / aborted on a short type-like scalar ({a[:40]})', 'reqs': [r], 'input': repr(t)})
+        elif i in emodel and canon_tree_line(a) != canon_tree_line(emodel[i]):
+            diff(res, r, a, emodel[i], 'lod')
     # loader work on nested complex keys: each level re-hashes its whole (nested) key
     import subprocess, time as _t
     t0 = _t.time()
@@ -1135,7 +1158,7 @@ def typed_scalar_docs():
               "equality/hash of marked nodes ignoring spans is exercised through mappings keyed by marked nodes (C20 covers the hash stream)"])
 def c19(tier, rng):
     res = Result()
-    res.rule = "every scalar style x chomping x tag around type-like contents in four positions; accepted and rejected inputs of the C01 space; 4 node kinds x {eager, lazy, lazy+resolve}; non-trivial = a document with a collection; distinct by text"
+    res.rule = "every scalar style x chomping x tag around type-like contents in four positions; accepted and rejected inputs of the C01 space; 4 node kinds x {eager, lazy, lazy+resolve}; pairs of documents with the same layout and different data (and the same data in a different layout): every node of one against every node of the other, equal-pair counts compared across node types; non-trivial = a document with a collection; distinct by text"
     res.corr_ops = ['lod <kind> <mode> for all 4 kinds and 3 modes']
     seeds = ['a: [1, x]\n', '- 1\n- 0x2\n', '[~, true, 1.5, "s"]\n', '!!int x\n', '{1: a, 0x1: b}\n', '- - - 1\n', '&a [1]\n', 'k: !!float 1\n', "- '1'\n- \"2\"\n- |\n 3\n"]
     texts = seeds + typed_scalar_docs() + alias_docs(rng.fork('alias'), 3000 if tier == 'quick' else 100000) + c01_space(tier, rng, 0.6)
@@ -1146,6 +1169,32 @@ def c19(tier, rng):
     impl = run_impl(reqs)
     msample = [i for i in range(len(reqs))][:60000 if tier == 'quick' else 10**9]
     model = dict(zip(msample, run_model([reqs[i] for i in msample])))
+    # equality across loads: documents with the same layout (so that corresponding nodes have the same spans) but
+    # different data, and the other way round — marked nodes must compare exactly as bare nodes do
+    er = rng.fork('eqx')
+    words = ['80', '81', 'ab', 'cd', 'x1', '~~', 'no', 'on', '1.', '.5', "'a'", '"a"', 'abc', 'abd', 'nul', 'tru']
+    shapes = ['{0}\n', 'k: {0}\n', '- {0}\n- {1}\n', 'port: {0}\nhosts: [{1}, {2}]\n', '{{{0}: {1}, {2}: [{3}]}}\n', '? {0}\n: {1}\n', '- - {0}\n  - {1}\n- {2}\n', '&a {0}\n', '- !t {0}\n- {1}\n']
+    xcases = []
+    for _ in range(400 if tier == 'quick' else 20000):
+        sh = er.choice(shapes)
+        n_ = sh.count('{') - 2 * sh.count('{{')
+        wl = er.choice([2, 2, 3])
+        pool = [w for w in words if len(w) == wl]
+        a = sh.format(*[er.choice(pool) for _ in range(4)])
+        b = sh.format(*[er.choice(pool) for _ in range(4)]) if er.chance(4, 5) else ' ' + a.replace('\n', '\n ').rstrip(' ')
+        xcases.append((a, b, er.choice('el')))
+    xreqs = []
+    for a, b, m in xcases:
+        xreqs += [f'heq {nk} {m} {hx(a)} {hx(b)}' for nk in ('y', 'yo', 'm')]
+    ximpl = run_impl(xreqs)
+    for n, (a, b, m) in enumerate(xcases):
+        res.evaluations += 1
+        row = ximpl[3 * n:3 * n + 3]
+        if row[0] != 'ok 0':
+            res.nt(a + '\x00' + b)
+        if len(set(row)) != 1 and not any('PANIC' in x for x in row):
+            res.oracle_failures.append({'sig': usig(a + b), 'what': f'nodes of two loads compare differently depending on the node type (equal pairs: Yaml {row[0]}, YamlOwned {row[1]}, MarkedYaml {row[2]}): marked equality must ignore spans and look at the data',
+                                        'reqs': xreqs[3 * n:3 * n + 3], 'input': repr(a) + ' vs ' + repr(b)})
     W = 12
     for n, t in enumerate(texts):
         o = n * W
@@ -2326,10 +2375,30 @@ def suite_expected(tree):
               "theorems registered: parser-level (token language of collections -> events); the scanner side of C03 rests on correspondence + this oracle"])
 def c03(tier, rng):
     res = Result()
-    res.rule = "systematic nested layouts (6 parents x indentation step 1-3 x 15 kinds of first key/item x 1-2 pairs); streams rendered from random abstract trees (depth <= 4; block/flow, compact/next-line, explicit keys, sequences at the indentation of their key, comments, blank lines, node properties, aliases, 1-2 documents, markers, %YAML) + the non-error yaml-test-suite cases; non-trivial = at least one collection; distinct by text"
+    res.rule = "systematic nested layouts (6 parents x indentation step 1-3 x 15 kinds of first key/item x 1-2 pairs); streams rendered from random abstract trees (depth <= 4; block/flow, compact/next-line, explicit keys, sequences at the indentation of their key, comments, blank lines, node properties, aliases, 1-2 documents, markers, %YAML); pairs of single-document streams with 0-6 '...' lines (comments, blank lines) before, between and after them + the non-error yaml-test-suite cases; non-trivial = at least one collection; distinct by text"
     res.corr_ops = ['evt str / evt buf (model pipeline) on every rendered stream, a third of them without the final line break']
     r = rng.fork('c03')
     base = R.end_of_input_cases() * 6 + R.nested_layout_cases() + [R.render_stream(r) for _ in range(20000 if tier == 'quick' else 500000)]
+    # document-end markers belong to no document: any number of '...' lines (with comments and blank lines between
+    # them) before the first document, between two documents and after the last one leaves the documents as they are
+    mr = rng.fork('markers')
+    singles = [(t, e) for t, e in (R.nested_layout_cases() + [R.render_stream(mr) for _ in range(300)])
+               if t.endswith('\n') and sum(1 for x in e if x[0] == 'DS') == 1 and not t.startswith('%')][:400]
+    def marks(k):
+        return ''.join('...' + mr.choice(['\n', '\n', ' # c\n', '\n\n', '\n# c\n']) for _ in range(k))
+    for _ in range(1200 if tier == 'quick' else 30000):
+        (ta, ea), (tb, eb) = mr.choice(singles), mr.choice(singles)
+        k0, k1, k2 = mr.choice([0, 0, 1, 2, 3, 4]), mr.choice([1, 2, 3, 4, 5, 6]), mr.choice([0, 1, 2, 3, 5])
+        # B after a '...' may be a bare document; anchors restart per document, so the expectations concatenate
+        text = marks(k0) + ta + marks(k1) + tb + marks(k2)
+        # anchor ids run through the whole stream: B's are shifted by the number of anchors in A
+        off = max([x[1] for x in ea if x[0] in ('SC', 'MP', 'SQ') and isinstance(x[1], int)] + [0])
+        def shift(x):
+            if x[0] in ('SC', 'MP', 'SQ', 'AL') and isinstance(x[1], int) and x[1] > 0:
+                return (x[0], x[1] + off) + tuple(x[2:])
+            return x
+        exp = ea[:-1] + [shift(x) for x in eb[1:]]
+        base.append((text, exp))
     # every stream is also read without its final line break (the last token then ends at the end of the input)
     # and through the character-iterator back-end: the denoted tree is the same
     cases, kinds = [], []
@@ -2378,7 +2447,7 @@ def c03(tier, rng):
               "theorems registered: escape table and hex-escape decoding at function level; see Props/C04.lean"])
 def c04(tier, rng):
     res = Result()
-    res.rule = "long words (every special character at every offset around the look-ahead sizes 16/32/128/256, 3 styles x 3 contexts x 2 back-ends); systematic folds (four words x every combination of joins: blank runs, folds to a space or to 1-2 line feeds, trailing blanks/tab before the break, blank-line contents) x 3 styles x 3-4 contexts; target strings over a tricky-character alphabet (length <= 3 exhaustively over 12 symbols, random up to 16 over 29) x style x random per-character escape/literal choice, fold placement, continuation indentation and trailing padding x 7 syntactic contexts; non-trivial = presentation differs from the target; distinct by document text"
+    res.rule = "long words (every special character at every offset around the look-ahead sizes 16/32/128/256, 3 styles x 3 contexts x 2 back-ends); systematic folds, also with CR LF / CR breaks on both back-ends (four words x every combination of joins: blank runs, folds to a space or to 1-2 line feeds, trailing blanks/tab before the break, blank-line contents) x 3 styles x 3-4 contexts; target strings over a tricky-character alphabet (length <= 3 exhaustively over 12 symbols, random up to 16 over 29) x style x random per-character escape/literal choice, fold placement, continuation indentation and trailing padding x 7 syntactic contexts; non-trivial = presentation differs from the target; distinct by document text"
     res.corr_ops = ['evt str on every presentation']
     r = rng.fork('c04')
     A12 = ['a', ' ', '\n', ':', '#', "'", '"', '\\', 'é', '-', '\t', ',']
@@ -2454,7 +2523,16 @@ def c04(tier, rng):
         ctx = ('top', 'value', 'flowitem')[n % 3]
         doc, idx = R.in_context(ctx, '"' + body + '"')
         lw.append((tg_, 'D', ctx, doc, idx, 'str 128' if n % 2 else 'buf 16'))
-    cases = lw + rest
+    # the systematic folds again with CR LF and lone CR line breaks, on both back-ends: the value is the same
+    # (a break inside a scalar is reported as a line feed, and a CR LF pair is ONE break)
+    crv = []
+    for n, c in enumerate(fam):
+        doc = c[3]
+        if '\r' in doc or '\n' not in doc:
+            continue
+        v = n % 3
+        crv.append(c[:3] + (doc.replace('\n', '\r\n' if v != 2 else '\r'),) + c[4:] + ('buf 16' if v != 1 else 'str 128',))
+    cases = lw + rest + crv
     reqs = [f'evt {k} 0 {hx(d)}' for _, _, _, d, _, k in cases]
     impl = run_impl(reqs)
     nm = len(reqs) if tier == 'thorough' else 20000
@@ -2486,10 +2564,14 @@ def c05(tier, rng):
     res = Result()
     ML = 3 if tier == 'quick' else 4
     kinds = R.BLOCK_KINDS[:8] if tier == 'quick' else R.BLOCK_KINDS
-    res.rule = f"every line list of length <= {ML} over {len(kinds)} line kinds (text, syntax-looking, more-indented, blank) x {{literal, folded}} x {{strip, clip, keep}} x {{auto, explicit}} indentation x 5 parent contexts x header comment x final newline or not; non-trivial = at least one content line; distinct by document text"
+    res.rule = f"every line list of length <= {ML} over {len(kinds)} line kinds (text, syntax-looking, more-indented, blank) + the same over lines ending in spaces/tabs (3 contexts) x {{literal, folded}} x {{strip, clip, keep}} x {{auto, explicit}} indentation x 5 parent contexts x header comment x final newline or not; non-trivial = at least one content line; distinct by document text"
     res.corr_ops = ['evt str on every block scalar document']
     res.exhaustive = True
     cases = list(R.block_cases(ML, kinds))
+    # lines that end in blanks (content in a block scalar: folding must not trim them), alone and before every other kind
+    tkinds = [('t', 'a '), ('t', 'b\t'), ('t', 'c d  \t'), ('t', 'a'), ('m', ' d '), ('e', 0)]
+    seen = set(cases)
+    cases += [c for c in R.block_cases(ML, tkinds) if c not in seen and c[0] in ('top', 'map', 'nest') and c[6] == 0]
     reqs, exps = [], []
     vreqs = []
     for c in cases:
@@ -2588,7 +2670,7 @@ def c05(tier, rng):
               "theorems registered: parser-level rejection theorems; see Props/C06.lean"])
 def c06(tier, rng):
     res = Result()
-    res.rule = "structural damage on generated constructs (flow collections with one closer swapped / stray / missing / extra, open quotes in 11 contexts, tab indentation, over-long keys of 5 kinds in 8 positions, second roots) + 17 damage operators (the classes of the property) applied to well-formed rendered streams + the yaml-test-suite error cases; non-trivial = all; distinct by text"
+    res.rule = "structural damage on generated constructs (flow collections with one closer swapped / stray / missing / extra, open quotes in 11 contexts, tab indentation, over-long keys of 5 kinds in 8 positions, second roots) + every non-escape character after a backslash and every class of non-hexadecimal character at every digit position of \\x/\\u/\\U + 17 damage operators (the classes of the property) applied to well-formed rendered streams + the yaml-test-suite error cases; non-trivial = all; distinct by text"
     res.corr_ops = ['evt str on every damaged stream']
     r = rng.fork('c06')
     cases = []
@@ -2608,11 +2690,31 @@ def c06(tier, rng):
     for c in load_suite():
         if c['fail']:
             cases.append(('suite:' + c['id'], c['yaml']))
+    # escapes, systematically: every character that is not an escape letter after a backslash; every class of
+    # non-hexadecimal character (signs, blanks, letters beyond f, punctuation, other scripts' digits, a quote, the
+    # end of the input) at every digit position of \x, \u and \U
+    named = set('0abt\tnvfre "/\\N_LP')
+    for cp in list(range(1, 0x7f)) + [0x85, 0xa0, 0xe9, 0x2028, 0x4e2d, 0x1f600]:
+        ch = chr(cp)
+        if ch in named or ch in 'xuU' or ch in '\r\n':
+            continue
+        for ctx in ('"a\\%sb"\n', 'k: "\\%s"\n', '- ["x\\%s", y]\n'):
+            cases.append(('unknown-escape', ctx % ch))
+    bad = ['+', '-', ' ', '\t', 'g', 'G', 'z', 'x', '.', '_', ':', '#', '"', "'", '\\', '\u0663', '\uff21', '\uff11', 'é', '']
+    for k, n in (('x', 2), ('u', 4), ('U', 8)):
+        for j in range(n):
+            for b in bad:
+                digits = list('0041'.rjust(n, '0'))
+                digits[j] = b
+                body = ''.join(digits) if b != '' else ''.join(digits[:j])
+                for ctx in ('"a\\%s%sb"\n', 'k: "\\%s%s"\n') if b != '' else ('"a\\%s%s', 'k: "\\%s%s'):
+                    cases.append(('bad-hex-escape', ctx % (k, body)))
     reqs = [f'evt str 128 0 {hx(d)}' for _, d in cases]
     reqs2 = [f'lod y e {hx(d)}' for _, d in cases]
     impl = run_impl(reqs)
     impl2 = run_impl(reqs2)
-    model = run_model(reqs[:15000] if tier == 'quick' else reqs)
+    nesc = sum(1 for w, _ in cases if w in ('unknown-escape', 'bad-hex-escape'))
+    model = run_model((reqs[:15000] + reqs[-nesc:]) if tier == 'quick' else reqs)
     for n, (w, d) in enumerate(cases):
         res.evaluations += 1
         a = impl[n]
@@ -2623,8 +2725,9 @@ def c06(tier, rng):
             res.oracle_failures.append({'sig': usig(d), 'what': f'ill-formed stream ({w}) was accepted as a complete event stream', 'reqs': [reqs[n]], 'input': repr(d[-300:])})
         elif not impl2[n].startswith('ERR') and 'PANIC' not in impl2[n]:
             res.oracle_failures.append({'sig': usig(d + 'lod'), 'what': f'ill-formed stream ({w}) was loaded without an error', 'reqs': [reqs2[n]], 'input': repr(d[-300:])})
-        if n < len(model) and model[n] != a and 'PANIC' not in a:
-            diff(res, reqs[n], a, model[n], 'evt')
+        mi = n if (tier != 'quick' or n < 15000) else (15000 + n - (len(cases) - nesc) if n >= len(cases) - nesc else None)
+        if mi is not None and mi < len(model) and model[mi] != a and 'PANIC' not in a:
+            diff(res, reqs[n], a, model[mi], 'evt')
         if n % 5003 == 0:
             res.samples.append({'operator': w, 'tail_of_text': d[-80:]})
     return res
@@ -2636,7 +2739,7 @@ def c06(tier, rng):
 def c13(tier, rng):
     res = Result()
     res.rule = "random JSON values (depth <= 5, hostile strings as keys and values, boundary numbers) x {compact, pretty, random insignificant spaces/tabs/newlines}; nesting up to 254 and beyond; non-trivial = contains an object or array; distinct by text"
-    res.corr_ops = ['lod y e on every JSON text']
+    res.corr_ops = ['lod y e on every JSON text'] 
     r = rng.fork('c13')
     cases = []
     for _ in range(10000 if tier == 'quick' else 350000):
@@ -2668,11 +2771,24 @@ def c13(tier, rng):
         cases.append((v, 'compact', '[' + ','.join('"' + (fmt % cp) + '"' for cp in chunk) + ']'))
     reqs = [f'lod y e {hx(t)}' for _, _, t in cases]
     impl = run_impl(reqs)
+    # the loaders read through the character-iterator back-end; the same text through the string back-end
+    # (Parser::new_from_str) must give the same events
+    breqs = []
+    for _, _, t in cases:
+        breqs += [f'evt str 128 0 {hx(t)}', f'evt buf 16 0 {hx(t)}']
+    bimpl = run_impl(breqs)
     nm = len(reqs) if tier == 'thorough' else 10000
     model = run_model(reqs[:nm])
     for n, (v, mode, t) in enumerate(cases):
         res.evaluations += 1
         a = impl[n]
+        es, eb = bimpl[2 * n], bimpl[2 * n + 1]
+        if es != eb and 'PANIC' not in es:
+            sig = usig(t + 'backend')
+            if '\t' in t and colon_tab(t):
+                sig = 'C13:tab-after-colon-in-flow'
+            res.oracle_failures.append({'sig': sig, 'what': 'the string back-end and the character-iterator back-end parse this JSON text differently' + (' (string back-end rejects it: ' + unhx(split_line(es)[1][2]) + ')' if ' ; ERR' in es and ' ; ERR' not in eb else ''),
+                                        'reqs': breqs[2 * n:2 * n + 2], 'input': repr(t[:300])})
         if v[0] in ('a', 'o'):
             res.nt(t)
         res.count(mode)
